@@ -1,0 +1,28 @@
+//go:build verif
+
+package kw
+
+// Contracts for the deductive checker in /verif (comment-only; compiled only under the verif tag).
+// Field elements FE are elements of an abstract commutative ring ("ring").
+
+//@ func (*Share).ID
+//@   property C02, C04, C05
+//@   purefn
+//@   ensures result == s.id
+//@ func (*Share).Value
+//@   property C02, C04, C05
+//@   purefn
+//@   ensures result == s.v
+
+// Shares are linear: Add is the component-wise sum. It panics on shares of different holders or lengths,
+// so every caller has to establish both (nopanic explicit).
+//@ func (*Share).Add
+//@   property C02, C04
+//@   bind FE ring
+//@   nopanic
+//@   requires s != nil && other != nil && s.id == other.id && len(s.v) == len(other.v)
+//@   ensures result != nil && result.id == s.id && len(result.v) == len(s.v)
+//@   ensures forall t int :: 0 <= t && t < len(s.v) ==> result.v[t] == radd(s.v[t], other.v[t])
+//@   loop range(s.v)
+//@     invariant len(out) == len(s.v)
+//@     invariant forall t int :: 0 <= t && t < i ==> out[t] == radd(s.v[t], other.v[t])
